@@ -156,6 +156,48 @@ func checkJoin(c *core.Ctx, g *an.Graph, info *types.Info, key string, callAtom 
 		drainX, drainBody, drainVal, drainRS = a, rs.Body, an.ObjOf(info, rs.Value), rs
 	}
 	if drainX == nil {
+		// the slice may be handed to a helper that drains it: a function whose parameter is ranged over with one receive per
+		// element on every path of the loop body
+		e := EnvOf(c.Prog)
+		for _, a := range g.FindAtoms(func(a ast.Node) bool {
+			call, ok := a.(*ast.CallExpr)
+			if !ok {
+				return false
+			}
+			for _, arg := range call.Args {
+				if an.ObjOf(info, arg) == slice {
+					return true
+				}
+			}
+			return false
+		}) {
+			call := a.(*ast.CallExpr)
+			callee := e.Ix.FuncOf(an.CalleeFunc(info, call))
+			if callee == nil || callee.Decl == nil {
+				continue
+			}
+			for i, arg := range call.Args {
+				if an.ObjOf(info, arg) != slice {
+					continue
+				}
+				if drainsParam(e, callee, i) {
+					p := g.Search(an.Query{From: callAtom, ToExit: true,
+						Target: func(x ast.Node) bool {
+							for _, l := range later {
+								if x == l {
+									return true
+								}
+							}
+							return false
+						},
+						Avoid: func(x ast.Node) bool { return x == a }})
+					if !p.Found {
+						c.Ok(key, callAtom.Pos(), "non-nil channels are collected on every path and drained (by "+callee.Name()+") before the next phase and before returning")
+						return
+					}
+				}
+			}
+		}
 		c.Bad(key, callAtom.Pos(), "the collected channels are never drained: nothing waits for the asynchronous steps")
 		return
 	}
@@ -379,15 +421,7 @@ func runCSOrder(c *core.Ctx) {
 		ok, _ := g.MustPass(nil, func(a ast.Node) bool { return clr(a) || clr2(a) }, nil)
 		c.Check(ok, "abort:clears-dirty-set", fn.Pos(), "every path through abort() clears dirtyResourceHandles",
 			"abort() can return without clearing dirtyResourceHandles")
-		// every non-nil abort channel is waited for: a receive from a `chan struct{}` is reachable after the Abort calls
-		if len(aborts) > 0 {
-			p := g.Search(an.Query{From: aborts[len(aborts)-1], Target: func(a ast.Node) bool {
-				u, ok := a.(*ast.UnaryExpr)
-				return ok && u.Op == token.ARROW
-			}})
-			c.Check(p.Found, "abort:waits-for-async-aborts", fn.Pos(), "abort() receives from the channels returned by Abort",
-				"abort() never waits for the channels returned by Abort: the next attempt could start while a resource is still rolling back")
-		}
+		// (the weaker "some receive follows the Abort calls" clause was superseded by abort:Abort#k-joined)
 	}
 
 	// ---- Run()
@@ -430,72 +464,77 @@ func runCSOrder(c *core.Ctx) {
 					c.Check(assignedToErr(cm), fmt.Sprintf("Run:commit#%d-error-kept", i+1), cm.Pos(), "the commit() result is assigned to err and examined at the loop head",
 						"the result of commit() is dropped: a refused pre-commit (ErrCriticalSectionAborted) would never be rolled back")
 				}
-				// abort() sits in the ErrCriticalSectionAborted arm of a switch on err
-				for i, ab := range abortCalls {
-					cc, _ := g.Enclosing(ab, func(m ast.Node) bool { _, ok := m.(*ast.CaseClause); return ok }).(*ast.CaseClause)
-					ok := false
-					if cc != nil {
-						if sw, _ := g.Enclosing(cc, func(m ast.Node) bool { _, ok := m.(*ast.SwitchStmt); return ok }).(*ast.SwitchStmt); sw != nil && sw.Tag != nil && an.ObjOf(info, sw.Tag) == errVar {
-							for _, ex := range cc.List {
-								if o := selectedOrIdentObj(info, ex); o == aborted {
-									ok = true
-								}
+				// the dispatch on the section outcome: switch err { ... } or an if-chain comparing err with the sentinels.
+				// Its "heads" are the switch tag and every condition that compares err with something.
+				isHead := func(a ast.Node) bool {
+					ex, ok := a.(ast.Expr)
+					if !ok {
+						return false
+					}
+					if sw, isSw := g.Parent(a).(*ast.SwitchStmt); isSw && sw.Tag == ex && an.ObjOf(info, ex) == errVar {
+						return true
+					}
+					if !g.IsCondAtom(a) {
+						return false
+					}
+					found := false
+					ast.Inspect(ex, func(m ast.Node) bool {
+						if be, ok := m.(*ast.BinaryExpr); ok && (be.Op == token.EQL || be.Op == token.NEQ) {
+							if an.ObjOf(info, be.X) == errVar || an.ObjOf(info, be.Y) == errVar {
+								found = true
 							}
 						}
-					}
-					c.Check(ok, fmt.Sprintf("Run:abort#%d-on-aborted-arm", i+1), ab.Pos(), "abort() is called on the ErrCriticalSectionAborted arm of the switch on err",
-						"abort() is not called on the ErrCriticalSectionAborted arm of the error switch")
+						return true
+					})
+					return found
 				}
-				// every cycle Body -> Body re-evaluates the switch on err, and all other non-nil arms return
-				var sw *ast.SwitchStmt
-				ast.Inspect(fn.Body(), func(m ast.Node) bool {
-					if s, ok := m.(*ast.SwitchStmt); ok && s.Tag != nil && an.ObjOf(info, s.Tag) == errVar && sw == nil {
-						sw = s
-					}
-					return true
-				})
-				if sw == nil {
-					c.Bad("Run:error-switch", fn.Pos(), "no switch on err found in Run")
+				heads := g.FindAtoms(isHead)
+				if len(heads) == 0 {
+					c.Bad("Run:error-dispatch", fn.Pos(), "Run never compares err with the abort / done sentinels")
 				} else {
-					p := g.Search(an.Query{From: body, Target: func(a ast.Node) bool { return a == body },
-						Avoid: func(a ast.Node) bool { return a == ast.Node(sw.Tag) }})
-					c.Check(!p.Found, "Run:every-iteration-examines-err", sw.Pos(), "every cycle from Body back to Body evaluates the switch on err",
-						"there is a cycle from Body back to Body that skips the switch on err: an error (abort, Done, failure) could be ignored")
-					// no way out of Run between a section outcome (Body / commit result in err) and the switch
+					p := g.Search(an.Query{From: body, Target: func(a ast.Node) bool { return a == body }, Avoid: isHead})
+					c.Check(!p.Found, "Run:every-iteration-examines-err", heads[0].Pos(), "every cycle from Body back to Body evaluates the dispatch on err",
+						"there is a cycle from Body back to Body that skips the dispatch on err: an error (abort, Done, failure) could be ignored")
 					for i, from := range append([]ast.Node{body}, commitCalls...) {
-						q := g.Search(an.Query{From: from, ToExit: true,
-							Avoid: func(a ast.Node) bool { return a == ast.Node(sw.Tag) }})
-						c.Check(!q.Found, fmt.Sprintf("Run:no-exit-before-outcome-examined#%d", i+1), from.Pos(), "every path from this section outcome to a return of Run evaluates the switch on err",
+						q := g.Search(an.Query{From: from, ToExit: true, Avoid: isHead})
+						c.Check(!q.Found, fmt.Sprintf("Run:no-exit-before-outcome-examined#%d", i+1), from.Pos(), "every path from this section outcome to a return of Run evaluates the dispatch on err",
 							"Run can return after this call without dispatching on err: a failed section is reported as success and an aborted one is never rolled back")
 					}
-					hasAbortArm, armsOK := false, true
-					var badArm string
-					for _, st := range sw.Body.List {
-						cc := st.(*ast.CaseClause)
-						isNil, isAborted := false, false
-						for _, ex := range cc.List {
-							if isNilIdent(info, ex) {
-								isNil = true
-							}
-							if selectedOrIdentObj(info, ex) == aborted {
-								isAborted = true
+					// the decisions of the dispatch, as a table over the three comparisons (at most one of which can hold)
+					errName := errVar.Name()
+					atomNil, atomAb, atomDone := errName+"==nil", errName+"==ErrCriticalSectionAborted", errName+"==ErrDone"
+					assume := func(a dtAtoms) bool {
+						n := 0
+						for _, x := range []string{atomNil, atomAb, atomDone} {
+							if a.B(x) {
+								n++
 							}
 						}
-						switch {
-						case isAborted:
-							hasAbortArm = true
-						case isNil:
-						default:
-							// must end in return
-							if len(cc.Body) == 0 {
-								armsOK, badArm = false, "empty arm"
-							} else if _, ok := cc.Body[len(cc.Body)-1].(*ast.ReturnStmt); !ok {
-								armsOK, badArm = false, "arm does not end in return"
-							}
-						}
+						return n <= 1
 					}
-					c.Check(hasAbortArm, "Run:aborted-arm-present", sw.Pos(), "the switch has an ErrCriticalSectionAborted arm", "the switch on err has no ErrCriticalSectionAborted arm")
-					c.Check(armsOK, "Run:other-errors-return", sw.Pos(), "every other non-nil arm (incl. default) returns", "a non-nil, non-aborted error arm does not return ("+badArm+"): Run would continue after a failure")
+					bools := []string{atomNil, atomAb, atomDone}
+					rows := []dtRow{
+						{fn: "MPCalContext.Run", key: "aborts-exactly-the-aborted-outcome", why: "abort() runs exactly when the section outcome is ErrCriticalSectionAborted",
+							find: func(inf *types.Info, n ast.Node) bool { return callsMethodOf(inf, n, an.PkgDistsys, "MPCalContext", "abort") }, bools: bools, assume: assume, existsOthers: true,
+							ref: func(a dtAtoms) bool { return a.B(atomAb) }},
+						{fn: "MPCalContext.Run", key: "returns-other-errors", why: "any other non-nil outcome except ErrDone ends Run with that error",
+							find: func(inf *types.Info, n ast.Node) bool {
+								r, ok := n.(*ast.ReturnStmt)
+								return ok && len(r.Results) == 1 && an.ObjOf(inf, r.Results[0]) == errVar
+							}, bools: bools, assume: assume, existsOthers: true,
+							ref: func(a dtAtoms) bool { return !a.B(atomNil) && !a.B(atomAb) && !a.B(atomDone) }},
+						{fn: "MPCalContext.Run", key: "next-section-only-after-nil-or-aborted", why: "a new attempt starts only after a committed or a rolled-back one",
+							find: func(inf *types.Info, n ast.Node) bool {
+								call, ok := n.(*ast.CallExpr)
+								if !ok {
+									return false
+								}
+								f := an.CalleeFunc(inf, call)
+								return f != nil && f.Name() == "BeginEvent"
+							}, bools: bools, assume: assume, existsOthers: true,
+							ref: func(a dtAtoms) bool { return a.B(atomNil) || a.B(atomAb) }},
+					}
+					runDecisionRows(c, e, an.PkgDistsys, "", rows)
 				}
 			}
 			// nothing else calls a critical section Body
@@ -1190,6 +1229,37 @@ func runCallOrder(c *core.Ctx) {
 		c.Check(usesHead, "Return:restores-from-Head", fn.Pos(), "the frame restored is Head(.stack)", "Return does not take Head(stack) as the frame to restore")
 		c.Check(restore, "Return:writes-every-saved-pair", fn.Pos(), "every (name, value) pair of the frame is written back", "Return does not write every saved pair of the frame back to its variable")
 	}
+	// ---- by-reference parameters: the indirection is followed on every use (Call/Return rewrite the pointer cell)
+	if fn := mustMethod(c, e, an.PkgDistsys, "ArchetypeInterface", "RequireArchetypeResourceRef"); fn != nil {
+		info := fn.Pkg.Info
+		g := e.Graph(fn)
+		iface := resourceIface(c, e)
+		reads := g.FindAtoms(func(a ast.Node) bool {
+			call, ok := a.(*ast.CallExpr)
+			if !ok || iface == nil {
+				return false
+			}
+			name, _, ok := lifecycleCall(info, call, iface)
+			return ok && name == "ReadValue"
+		})
+		okRef := len(reads) > 0
+		for _, r := range g.FindAtoms(func(a ast.Node) bool {
+			rs, ok := a.(*ast.ReturnStmt)
+			return ok && len(rs.Results) == 2 && isNilIdent(info, rs.Results[1])
+		}) {
+			dom := false
+			for _, rd := range reads {
+				if g.Dominates(rd, r) {
+					dom = true
+				}
+			}
+			if !dom {
+				okRef = false
+			}
+		}
+		c.Check(okRef, "RequireArchetypeResourceRef:reads-pointer-every-time", fn.Pos(), "every successful return follows a read of the pointer cell in this call",
+			"a by-reference handle can be returned without reading the pointer cell (e.g. from a cache): Call and Return rewrite that cell for every activation, so later activations of a procedure keep acting on the variable passed to the first one")
+	}
 	// ---- TailCall
 	if fn := mustMethod(c, e, an.PkgDistsys, "ArchetypeInterface", "TailCall"); fn != nil {
 		g := e.Graph(fn)
@@ -1207,6 +1277,24 @@ func runCallOrder(c *core.Ctx) {
 			c.Bad("TailCall:return-then-call", fn.Pos(), "TailCall must perform Return() and then Call(...)")
 		} else {
 			c.Check(g.Dominates(ret, call2), "TailCall:return-then-call", call2.Pos(), "Return() precedes Call(...)", "Call(...) is not preceded by Return(): the current frame is never dropped")
+			// no other way out: every return of TailCall hands back an error it holds, or the result of Call(...)
+			okExits := true
+			for _, r := range g.FindAtoms(func(a ast.Node) bool { _, ok := a.(*ast.ReturnStmt); return ok }) {
+				rs := r.(*ast.ReturnStmt)
+				if len(rs.Results) != 1 {
+					okExits = false
+					continue
+				}
+				if an.Unparen(rs.Results[0]) == call2.(ast.Expr) {
+					continue
+				}
+				if o := an.ObjOf(info, rs.Results[0]); o != nil && types.Identical(o.Type(), types.Universe.Lookup("error").Type()) {
+					continue
+				}
+				okExits = false
+			}
+			c.Check(okExits, "TailCall:no-shortcut", fn.Pos(), "every exit is an error it holds or the result of Call(...)",
+				"TailCall has an exit that bypasses Return()+Call(...) (a shortcut): the callee's preamble does not run, so the new activation inherits the previous activation's locals instead of freshly initialised ones")
 			// second argument of Call derives from a variable defined before Return()
 			cc := call2.(*ast.CallExpr)
 			ok := false
@@ -1238,4 +1326,46 @@ func runCallOrder(c *core.Ctx) {
 				"the return label passed to Call is not taken from the frame before Return(): the callee would return to the wrong place")
 		}
 	}
+}
+
+// drainsParam: callee ranges over its idx-th parameter and receives from the range value on every path of the loop body,
+// and the loop is on every path of the callee.
+func drainsParam(e *Env, callee *an.Func, idx int) bool {
+	info := callee.Pkg.Info
+	var param types.Object
+	k := 0
+	for _, fl := range callee.Decl.Type.Params.List {
+		for _, nm := range fl.Names {
+			if k == idx {
+				param = info.Defs[nm]
+			}
+			k++
+		}
+	}
+	if param == nil {
+		return false
+	}
+	g := e.Graph(callee)
+	ok := false
+	ast.Inspect(callee.Body(), func(m ast.Node) bool {
+		rs, isR := m.(*ast.RangeStmt)
+		if !isR || an.ObjOf(info, rs.X) != param || rs.Value == nil {
+			return true
+		}
+		val := an.ObjOf(info, rs.Value)
+		bb := g.BlockOfStmt(rs, cfg.KindRangeBody)
+		if bb == nil {
+			return true
+		}
+		recvs := g.PassesWithin(bb, rs.Body.Pos(), rs.Body.End(), func(a ast.Node) bool {
+			u, isU := a.(*ast.UnaryExpr)
+			return isU && u.Op == token.ARROW && an.ObjOf(info, u.X) == val
+		})
+		always, _ := g.MustPass(nil, func(a ast.Node) bool { return a == ast.Node(rs.X) }, nil)
+		if recvs && always {
+			ok = true
+		}
+		return true
+	})
+	return ok
 }
